@@ -13,6 +13,10 @@ CHECKS = {
    "reference-model monitor (router written from the statement) + invocation counter + recover(), exhaustive small-scope tables x paths, seeded random large tables",
    "Registers every table of up to 3 routes over 58 patterns x {GET,*} (POST for pairs), thorough also all 4-route tables over 10 shapes x 3 methods, on a real Mux and on a flat-list reference router; sends 151 paths (doubled/trailing slashes, look-alike segments, '', '*', slash-less) x 4 methods through ServeHTTP and compares the single invoked handler, its RouteInfo and every parameter lookup. Plus random tables of 5..40 routes with arbitrary-byte segments. About 10^8 dispatches per run.",
    "Trusts the 150-line reference router; requests are delivered by calling ServeHTTP directly with a hand-built http.Request (no network parsing in between).", "§3 C04"),
+ "C05": ("reqiso", "exploration",
+   "differential monitor: every request of a history on a long-lived Mux vs the same request on a fresh Mux; ID uniqueness set; Go race detector on concurrent runs",
+   "All histories of up to 4 (quick) / 6 (thorough) ops over a 9-op alphabet (matched with 0/1/2 params or *, unmatched, partial match failing at the method node, panicking handler, registering a route with more parameters than any before, serving it) on one goroutine so that the pooled Store is reused maximally; relay, route and no-route handlers look up every parameter name of the table, RouteParamAny, W.Status and GetID. Random histories up to 200 ops; concurrent runs of 4-16 goroutines x 10^4 requests plain and under -race at GOMAXPROCS 2/4/16.",
+   "Trusts that a fresh Mux is residue-free (it is the reference); registration concurrent with serving is outside the statement and not driven.", "§3 C05"),
 }
 BUILT = set(CHECKS)
 
